@@ -347,3 +347,95 @@ gi_clip = Contract("C10.GenomicIntervalsFull.clip", target=lambda: _GI().Genomic
                    ensures=_ens_gi_clip, callees=CALLEES,
                    canaries=[("fast path that forgets negative starts", "        return replace(self,", "        return self if np.all(self.stop <= chrom_sizes) else replace(self,")])
 CONTRACTS += [windows_flank, windows_size, gi_clip]
+
+
+# ----------------------------------------------------------------------------------------------------------
+# get_location: the location column handed to GenomicLocationGlobal.from_data, per row and strand-aware:
+#   'start': start on '+' and stop-1 on '-';  'stop': stop-1 on '+' and start on '-';  'center': (start+stop)//2;  unstranded: the table itself.
+# extended_to_size: extend_to_size (contract proved for C08) is called with the size OF EACH ROW'S OWN CHROMOSOME.
+_hl = {}
+
+
+def _capture_from_data(ip, args, kwargs, lineno):
+    st = _hl["st"]
+    st.passed = [a for a in args if isinstance(a, _ST)][0]          # (the classmethod receiver comes first)
+    st.passed_kwargs = kwargs
+    return Opaque("GenomicLocationGlobal")
+
+
+def _setup_loc(where, stranded):
+    def setup(ctx):
+        gi = _GI()
+        st = _make_offset(ctx, St())
+        st.m = z3.Int("m")
+        st.c0, st.s0, st.e0, st.sd = [z3.Function(x, z3.IntSort(), z3.IntSort()) for x in ("c0", "s0", "e0", "strand")]
+        cols = {"chromosome": SArr.fresh(st.m, lambda i: st.c0(I(i)), enc="genome"), "start": SArr.fresh(st.m, lambda i: st.s0(I(i))),
+                "stop": SArr.fresh(st.m, lambda i: st.e0(I(i)))}
+        if stranded:
+            cols["strand"] = SArr.fresh(st.m, lambda i: st.sd(I(i)), enc="strand/ascii")
+        st.iv = _ST(cols, st.m)
+        st.selfv = SRec(gi.GenomicIntervalsFull, _intervals=st.iv, _genome_context=SRec(None, global_offset=st.selfv), _is_stranded=stranded)
+        st.args = [where]
+        st.where, st.stranded = where, stranded
+        _hl["st"] = st
+        return st
+    return setup
+
+
+def _ens_loc(ctx, st, ret):
+    t = st.passed
+    if not st.stranded and st.where in ("start", "stop"):
+        return [("unstranded: the interval table itself is handed on", t is st.iv), ("position column is start", st.passed_kwargs.get("position_name") == "start")]
+    loc = t.cols["start"]
+    plus = lambda i: st.sd(i) == ord("+")
+    minus = lambda i: st.sd(i) == ord("-")
+    if st.where == "center":
+        from pyvc import npmodel as _M
+        spec = lambda i: _M._divmod_noassert(st.s0(i) + st.e0(i), 2)[0]
+        goal = Forall(lambda i: Implies(in_range(i, st.m), I(loc.at(i)) == spec(i)))
+    elif st.where == "start":
+        goal = Forall(lambda i: Implies(in_range(i, st.m), I(loc.at(i)) == Ite(plus(i), st.s0(i), st.e0(i) - 1)))
+    else:
+        goal = Forall(lambda i: Implies(in_range(i, st.m), I(loc.at(i)) == Ite(minus(i), st.s0(i), st.e0(i) - 1)))
+    return [("location.of.row.i", goal), ("rows", I(loc.length) == st.m),
+            ("other.columns.kept", t.cols["chromosome"] is st.iv.cols["chromosome"] and t.cols["stop"] is st.iv.cols["stop"]),
+            ("position column is start", st.passed_kwargs.get("position_name") == "start"),
+            ("frame: the interval table keeps its own start column", st.iv.cols["start"] is not loc)]
+
+
+def _mk_loc(where, stranded, canary):
+    return Contract("C10.GenomicIntervalsFull.get_location[%s,%s]" % (where, "stranded" if stranded else "unstranded"),
+                    target=lambda: _GI().GenomicIntervalsFull.get_location, setup=_setup_loc(where, stranded), requires=lambda ctx, st: [st.m >= 0],
+                    ensures=_ens_loc, callees=dict(CALLEES, **{"bionumpy.genomic_data.genomic_intervals.GenomicLocation.from_data": _capture_from_data}),
+                    canaries=[canary])
+
+
+loc_start = _mk_loc("start", True, ("strands swapped", "self.strand == ('+' if where == 'start' else '-')", "self.strand == ('-' if where == 'start' else '+')"))
+loc_stop = _mk_loc("stop", True, ("stop not made inclusive", "self.stop - 1)", "self.stop)"))
+loc_center = _mk_loc("center", True, ("center of the last base", "location = (self.start + self.stop) // 2", "location = (self.start + self.stop - 1) // 2 + 1"))
+loc_unstranded = _mk_loc("start", False, ("unstranded treated as minus", "if not self.is_stranded():", "if self.is_stranded():"))
+
+
+def _capture_extend(ip, args, kwargs, lineno):
+    st = _hl["st"]
+    st.ext_args = args
+    return args[0]
+
+
+def _setup_ext(ctx):
+    st = _setup_loc("start", True)(ctx)
+    st.L = z3.Int("fragment_length")
+    st.args = [st.L]
+    return st
+
+
+gi_extended = Contract("C10.GenomicIntervalsFull.extended_to_size", target=lambda: _GI().GenomicIntervalsFull.extended_to_size, setup=_setup_ext,
+                       requires=lambda ctx, st: [st.m >= 0, Forall(lambda i: Implies(in_range(i, st.m), in_range(st.c0(i), st.n)), triggers=[st.c0], name="valid chromosome codes")],
+                       ensures=lambda ctx, st, ret: [("extend_to_size receives the table, the length and one size per row", st.ext_args[0] is st.iv and st.ext_args[1] is st.L),
+                                                     ("size.of.row.i.is.the.size.of.its.own.chromosome", Forall(lambda i: Implies(in_range(i, st.m), I(st.ext_args[2].at(i)) == st.size(st.c0(i))))),
+                                                     ("rows", I(st.ext_args[2].length) == st.m)],
+                       callees=dict(CALLEES, **{"bionumpy.streams.decorators.streamable.__call__.<locals>.new_func": _capture_extend,
+                                                 "bionumpy.arithmetics.intervals.extend_to_size": _capture_extend,
+                                                 "bionumpy.genomic_data.genomic_intervals.GenomicIntervals.from_intervals": lambda ip, args, kwargs, lineno: Opaque("GenomicIntervals")}),
+                       canaries=[("genome size instead of chromosome sizes", "chrom_sizes = self._genome_context.global_offset.get_size(self._intervals.chromosome)", "chrom_sizes = self._genome_context.global_offset.get_size(self._intervals.chromosome[:1])")])
+CONTRACTS += [loc_start, loc_stop, loc_center, loc_unstranded, gi_extended]
